@@ -18,6 +18,8 @@ def run(ctx):
     E.r_waitfor_coverage(prog, rep)
     E.r_scan_waits(prog, rep)
     E.r_request_flags(prog, rep)
+    E.r_waitcount(prog, rep)              # a wait count that cannot reach zero is a stall, reported as a cycle
+    E.r_outstanding_count(prog, rep)
     E.r_dfs_pairing(prog, rep)
     E.r_cancel_on_exit(prog, rep)
 from rules.engine_variants import C07 as VARIANTS  # noqa: E402
